@@ -16,7 +16,8 @@
    C16_reparse_partial states the clause conditionally on the re-parse lemma for the
    output entry list; the harness oracle checks it with the real parser on every case.  C16_idempotent is the entity-level statement: for ANY
    entry list X with the entities of the output (such as a junk-free re-parse).
-   Known findings: C16_wrap_valueless_refuted (.inc `#define KEY` without value). *)
+   Known findings: C16_wrap_valueless_refuted (.inc `#define KEY` without value),
+   C16_ftl_unwrap_comment_refuted, C16_ws_fold_joins_lines_refuted. *)
 From Coq Require Import ZArith NArith List Bool Arith.
 From CL Require Import Base.Sx Base.Res Base.Str Model.AddRemove Model.Channels
                        Proofs.ChannelsProofs Proofs.ChannelsSpec Model.Serializer
@@ -162,4 +163,43 @@ Proof.
              35;100;101;102;105;110;101;32;98;97;114;32;66;65;82;10]),
          (0, 11)%Z, (s [102;111;111]), (s [120]).
   eexists. split; [reflexivity|]. split; vm_compute; reflexivity.
+Qed.
+
+(* known finding (ftl-unwrap-includes-comment): FluentEntity.unwrap() returns the entry text
+   INCLUDING its attached comment and FluentEntity.wrap prepends the reference comment: a raw
+   value obtained by unwrap() from a commented entry comes back with the comment twice.
+   comment "# c\n", raw "# c\nk = v" *)
+Theorem C16_ftl_unwrap_comment_refuted :
+  exists contents c key raw e,
+    c <> [] /\ starts_with c raw = true /\
+    apply_wrap contents (WFluent c) key raw = Ok e /\
+    c_text e = c ++ c ++ skipn (length c) raw.
+Proof.
+  exists [], (s [35;32;99;10]), (s [107]), (s [35;32;99;10;107;32;61;32;118]).
+  eexists. split; [discriminate|]. split; [vm_compute; reflexivity|].
+  split; [reflexivity|vm_compute; reflexivity].
+Qed.
+
+(* known finding (serialize-ws-fold-joins-lines): the old file "a = la  " (no final newline,
+   trailing blanks) against the reference "a = A\nb = B\n" with new_data {b: "nb"}: pruning keeps
+   the longer whitespace "  " instead of the line break, the bytes are "a = la  b = nb\n" — one
+   line.  The entity-level theorems hold of this run (two entities a, b); the defect is in the
+   re-parse (C16_reparse_partial's premise [reparses] fails for this output). *)
+Definition wf_contents := s [97;32;61;32;65;10;98;32;61;32;66;10].
+Definition wf_ref :=
+  [mkc CEntity (s [97]) (s [97;32;61;32;65]) (s [65]) 1; mkc CWhite [] (s [10]) [] 2;
+   mkc CEntity (s [98]) (s [98;32;61;32;66]) (s [66]) 3; mkc CWhite [] (s [10]) [] 4].
+Definition wf_wraps : list (nat * wrapinfo) :=
+  [(1, WBase (0, 5)%Z (Some (4, 5)%Z) None); (3, WBase (6, 11)%Z (Some (10, 11)%Z) None)].
+Definition wf_old :=
+  [mkc CEntity (s [97]) (s [97;32;61;32;108;97]) (s [108;97]) 5; mkc CWhite [] (s [32;32]) [] 6].
+Theorem C16_ws_fold_joins_lines_refuted :
+  exists out,
+    serialize_entries (wrap_by_id wf_contents wf_wraps) wf_ref wf_old [(s [98], Some (s [110;98]))] = Ok out /\
+    map c_key (filter is_cent out) = [s [97]; s [98]] /\
+    concat (map c_text out) = s [97;32;61;32;108;97; 32;32; 98;32;61;32;110;98; 10] /\
+    ~ In 10%N (firstn 14 (concat (map c_text out))).
+Proof.
+  eexists. split; [vm_compute; reflexivity|]. split; [vm_compute; reflexivity|].
+  split; [vm_compute; reflexivity|]. vm_compute. intuition discriminate.
 Qed.
